@@ -108,6 +108,14 @@ func handlePeerMsg(sessionMap map[string][]interface{}, sessionReq map[string]re
 	}
 }
 
+// stampSender records who announced a public key (the transport authenticates the sender), whatever
+// the message itself claims: exchangePub accepts a key for index i only from member i.
+func stampSender(content *PublicKey, sender []byte) {
+	if content != nil && content.Publickey != nil {
+		content.Publickey.SenderId = sender
+	}
+}
+
 func handleRequest(sessionMap map[string][]interface{}, sessionReq map[string]request, req request) {
 	sessionReq[req.sessionID] = req
 	if len(sessionMap[req.sessionID]) == req.numOfResps {
@@ -165,6 +173,7 @@ func (d *pdkg) Loop() {
 					d.logger.Error(&DKGError{err: errors.Errorf("Reply PublicKey failed for GID %s : %w", content.SessionId, err)})
 					//	continue
 				}
+				stampSender(content, msg.Sender)
 				handlePeerMsg(sessionPubKeys, sessionReqPubs, d.p, content.SessionId, content)
 			case *Deal:
 				err := d.p.Reply(context.Background(), msg.Sender, msg.RequestNonce, content)
